@@ -377,6 +377,15 @@ def check_outcome(expect: dict, outcome: dict) -> list[str]:
                 bad.append("returned bytes differ from the bytes sent")
         else:
             bad.append(f"expected bytes, got {outcome.get('kind')} {outcome.get('type')}")
+    elif k == "stream_once":
+        # a 2xx response with content next to a streamed primary response (F35 repaired): the method is an async generator that
+        # yields the decoded value as its only item - judged like the value an ordinary method returns
+        if outcome.get("kind") != "stream":
+            bad.append(f"expected an async iterator, got {outcome.get('kind')} {outcome.get('type')}")
+        elif len(outcome["items"]) != 1:
+            bad.append(f"expected one streamed item, got {len(outcome['items'])}: {json.dumps(outcome['items'])[:160]}")
+        else:
+            bad += check_outcome(expect["item"], {"kind": "returned", "type": (outcome.get("types") or ["?"])[0], "json": outcome["items"][0]})
     elif k == "stream_json":
         if outcome.get("kind") != "stream":
             bad.append(f"expected an async iterator, got {outcome.get('kind')} {outcome.get('type')}")
